@@ -242,15 +242,24 @@ Definition reg_model (ns : list Z) : list Z :=
   let '(_, _, res) := seq_registry (fun t => nth t ns 0%Z) (seq 0 (length ns)) [] 0 [] in
   map (fun p : nat * logger => Z.of_nat (snd p)) res.
 
+(* the premises of C08_predict_fixed_all_same, decided on the recorded pipelines: every program
+   obeys the discipline and fits the fuel of the evaluation; and the solo trace the classes are
+   computed against is the solo result of the theorems (C08_solo_trace_is_solo_result) *)
+Definition nest_premises_b (ps : list pdesc) : bool :=
+  forallb (fun i => let p := progs_of Fixed ps i in
+                    safe_prog p && (length p <=? 4000)
+                    && (if i <? 2 then eqb_trace (solo_trace p) (solo_result p) else true))
+          (seq 0 (2 * length ps)).
+
 Definition model_agrees (v : variant) (c : case) : bool :=
   match c with
-  | CNest ps nests obs => eqb_clss (predict v ps nests) obs
+  | CNest ps nests obs => (negb (is_fixed v) || nest_premises_b ps) && eqb_clss (predict v ps nests) obs
   | CObs _ => true
   | CPool stale data got_len seen =>
       let '(l, vis) := pool_model stale data in (l =? got_len)%Z && eqb_listN vis seen
   | CReg obs => eqb_listZ (reg_model (map fst obs)) (map snd obs)
   | CRegApply obs _ => eqb_listZ (reg_model (map fst obs)) (map snd obs)
-  | CNestF _ ps nests obs => eqb_clss (predict v ps nests) obs
+  | CNestF _ ps nests obs => (negb (is_fixed v) || nest_premises_b ps) && eqb_clss (predict v ps nests) obs
   | CPoolSeq ops seen =>
       let '(m, shrink) := pool_seq_model [] ops in
       shrink || eqb_seen m seen     (* after a shrink what is seen depends on sync.Pool's choice *)
